@@ -95,6 +95,10 @@ func (e *llEnv) term(x ast.Expr) (string, error) {
 	case *ast.BasicLit:
 		return v.Value, nil
 	case *ast.SelectorExpr:
+		// <partition>.Leader: the leader id of the looked-up partition (bound by `| some leader`)
+		if id, ok := v.X.(*ast.Ident); ok && v.Sel.Name == "Leader" && e.vars[id.Name] == "#partition" {
+			return "leader", nil
+		}
 		if id, ok := v.X.(*ast.Ident); ok && v.Sel.Name == "ID" {
 			if t, ok := e.vars[id.Name]; ok && (t == "cur" || t == "bid") {
 				return t, nil
